@@ -996,6 +996,7 @@ class SQLCache(CacheMixin):
             return False
 
     def remove(self, key):
+        self._available_keys = None
         self.connection.execute(f"DELETE FROM {self.table} WHERE query=?", [key])
         self.connection.commit()
         return True
